@@ -492,17 +492,22 @@ fn get_evict_window(c: &mut Case) -> Res {
 // =============================================================================================
 // Part 3: page cache over real files; oracle = the file's bytes held in memory
 // =============================================================================================
-enum Pc { Lru(LruPageCache), Single(SingleLruPageCache) }
+/// `Single` carries one caller-owned CacheBuffer that is reused for most out-parameter reads (a buffer that still holds the
+/// previous result is the realistic way `read(.., &mut buf)` is used) and a call counter choosing fresh vs reused
+enum Pc { Lru(LruPageCache), Single(SingleLruPageCache, std::cell::RefCell<(CacheBuffer, u32)>) }
 impl Pc {
-    fn open(&self, p: &std::path::Path) -> ZR<FileId> { match self { Pc::Lru(c) => c.open_file(p), Pc::Single(c) => c.open_file(p) } }
-    fn read(&self, f: FileId, off: u64, len: usize, alt: bool) -> ZR<CacheBuffer> { match self { Pc::Lru(c) => c.read(f, off, len), Pc::Single(c) => if alt { let mut b = CacheBuffer::new(); c.read(f, off, len, &mut b)?; Ok(b) } else { c.read_new(f, off, len) } } }
-    fn prefetch(&self, f: FileId, off: u64, len: usize) -> ZR<()> { match self { Pc::Lru(c) => c.prefetch(f, off, len), Pc::Single(c) => c.prefetch(f, off, len) } }
-    fn invalidate_page(&self, f: FileId, p: u32) -> ZR<()> { match self { Pc::Lru(c) => c.invalidate_page(f, p), Pc::Single(c) => c.invalidate_page(f, p) } }
-    fn invalidate_range(&self, f: FileId, off: u64, len: usize) -> ZR<()> { match self { Pc::Lru(c) => c.invalidate_range(f, off, len), Pc::Single(c) => c.invalidate_range(f, off, len) } }
-    fn close(&self, f: FileId) -> ZR<()> { match self { Pc::Lru(c) => c.close_file(f), Pc::Single(c) => c.close_file(f) } }
-    fn file_size(&self, f: FileId) -> ZR<u64> { match self { Pc::Lru(c) => c.file_size(f), Pc::Single(c) => c.file_size(f) } }
-    fn dirty_flush(&self, f: FileId, p: u32) -> ZR<()> { match self { Pc::Lru(c) => { c.mark_dirty(f, p)?; c.flush_file(f) } Pc::Single(c) => { c.mark_dirty(f, p)?; c.flush_file(f) } } }
-    fn counters(&self) -> (u64, u64, u64) { let s = match self { Pc::Lru(c) => c.stats(), Pc::Single(c) => c.stats().snapshot() }; (s.hit_counts[0], s.total_misses, s.hit_counts[1]) }
+    fn open(&self, p: &std::path::Path) -> ZR<FileId> { match self { Pc::Lru(c) => c.open_file(p), Pc::Single(c, _) => c.open_file(p) } }
+    fn read(&self, f: FileId, off: u64, len: usize, alt: bool) -> ZR<CacheBuffer> { match self { Pc::Lru(c) => c.read(f, off, len), Pc::Single(c, cell) => if alt { let mut g = cell.borrow_mut(); g.1 += 1;
+                if g.1 % 3 == 0 { let mut b = CacheBuffer::new(); c.read(f, off, len, &mut b)?; Ok(b) }
+                else { c.read(f, off, len, &mut g.0)?; if g.0.len() != g.0.data().len() { return Err(zipora::ZiporaError::invalid_data("reused CacheBuffer: len() != data().len()")); } Ok(CacheBuffer::from_data(g.0.data().to_vec())) } }
+            else { c.read_new(f, off, len) } } }
+    fn prefetch(&self, f: FileId, off: u64, len: usize) -> ZR<()> { match self { Pc::Lru(c) => c.prefetch(f, off, len), Pc::Single(c, _) => c.prefetch(f, off, len) } }
+    fn invalidate_page(&self, f: FileId, p: u32) -> ZR<()> { match self { Pc::Lru(c) => c.invalidate_page(f, p), Pc::Single(c, _) => c.invalidate_page(f, p) } }
+    fn invalidate_range(&self, f: FileId, off: u64, len: usize) -> ZR<()> { match self { Pc::Lru(c) => c.invalidate_range(f, off, len), Pc::Single(c, _) => c.invalidate_range(f, off, len) } }
+    fn close(&self, f: FileId) -> ZR<()> { match self { Pc::Lru(c) => c.close_file(f), Pc::Single(c, _) => c.close_file(f) } }
+    fn file_size(&self, f: FileId) -> ZR<u64> { match self { Pc::Lru(c) => c.file_size(f), Pc::Single(c, _) => c.file_size(f) } }
+    fn dirty_flush(&self, f: FileId, p: u32) -> ZR<()> { match self { Pc::Lru(c) => { c.mark_dirty(f, p)?; c.flush_file(f) } Pc::Single(c, _) => { c.mark_dirty(f, p)?; c.flush_file(f) } } }
+    fn counters(&self) -> (u64, u64, u64) { let s = match self { Pc::Lru(c) => c.stats(), Pc::Single(c, _) => c.stats().snapshot() }; (s.hit_counts[0], s.total_misses, s.hit_counts[1]) }
 }
 
 fn pc_config(preset: &str, c: &mut Case) -> (PageCacheConfig, String) {
@@ -542,7 +547,7 @@ fn pagecache_case(c: &mut Case, single: bool, preset: &str, family: &str) -> Res
     let sizes: Vec<usize> = (0..nfiles).map(|i| if i == 0 { if c.rng.chance(3, 4) { *c.rng.pick(FILE_SIZES) } else { 1 + c.rng.usize_below(40 * PAGE_SIZE) } } else { 1 + c.rng.usize_below(5 * PAGE_SIZE) }).collect();
     let salt = c.rng.next(); let nops = 30 + c.rng.usize_below(90);
     c.input_str("cfg", &format!("{} preset={preset} {cfgs} sizes={sizes:?} family={family} nops={nops}", if single { "single" } else { "lru" })); c.input("salt", &salt.to_le_bytes());
-    let cache = match nopanic("constructor", || if single { SingleLruPageCache::new(cfg.clone()).map(Pc::Single) } else { LruPageCache::new(cfg.clone()).map(Pc::Lru) })? { Ok(x) => x, Err(e) => { c.note("ctor_err", 1); c.log(format!("ctor: {e}")); return Ok(()); } };
+    let cache = match nopanic("constructor", || if single { SingleLruPageCache::new(cfg.clone()).map(|x| Pc::Single(x, Default::default())) } else { LruPageCache::new(cfg.clone()).map(Pc::Lru) })? { Ok(x) => x, Err(e) => { c.note("ctor_err", 1); c.log(format!("ctor: {e}")); return Ok(()); } };
     let mut files: Vec<PFile> = vec![];
     for (i, &sz) in sizes.iter().enumerate() { let data = file_bytes(salt.wrapping_add(i as u64 * 7919), sz); let path = dir.path().join(format!("f{i}.bin")); std::fs::write(&path, &data).map_err(|e| bad("__inconclusive", format!("write: {e}")))?;
         let id = match cache.open(&path) { Ok(id) => id, Err(e) => return fail("open_err", format!("{e}")) };
@@ -572,7 +577,7 @@ fn pagecache_case(c: &mut Case, single: bool, preset: &str, family: &str) -> Res
             match &cache { Pc::Lru(lc) => { let rq: Vec<(FileId, u64, usize)> = reqs.iter().map(|&(o, l)| (id, o, l)).collect(); let rs = match nopanic("read_batch", || lc.read_batch(rq))? { Ok(r) => r, Err(e) => return fail("read_err", format!("step {step}: read_batch Err({e})")) };
                     ensure!(rs.len() == reqs.len(), "read_batch_len", "step {step}: {} results for {} requests", rs.len(), reqs.len());
                     for (b, &(o, l)) in rs.iter().zip(reqs.iter()) { check_buf(c, "read_batch", b, &files[fi].data[o as usize..o as usize + l], o, step)?; } }
-                Pc::Single(_) => { for &(o, l) in &reqs { let b = cache.read(id, o, l, true).map_err(|e| bad("read_err", format!("step {step}: {e}")))?; check_buf(c, "read(buf)", &b, &files[fi].data[o as usize..o as usize + l], o, step)?; } } }
+                Pc::Single(..) => { for &(o, l) in &reqs { let b = cache.read(id, o, l, true).map_err(|e| bad("read_err", format!("step {step}: {e}")))?; check_buf(c, "read(buf)", &b, &files[fi].data[o as usize..o as usize + l], o, step)?; } } }
         } else if x < 71 { let (off, len) = pick_range(c, size); if oplog.len() < 600 { oplog.push_str(&format!("P{fi}@{off}+{len} ")); }
             match &cache { Pc::Lru(lc) if c.rng.bool() => { let (o2, l2) = pick_range(c, size); let ahead = c.rng.usize_below(2 * PAGE_SIZE); let ahead = ahead.min(size - (o2 as usize + l2));
                     let b = nopanic("read_with_prefetch", || lc.read_with_prefetch(id, o2, l2, ahead))?.map_err(|e| bad("read_err", format!("step {step}: read_with_prefetch: {e}")))?; check_buf(c, "read_with_prefetch", &b, &files[fi].data[o2 as usize..o2 as usize + l2], o2, step)?; }
@@ -610,7 +615,7 @@ fn pagecache_far(c: &mut Case, single: bool) -> Res {
     let dir = tempfile::tempdir().map_err(|e| bad("__inconclusive", format!("tempdir: {e}")))?;
     let size = *c.rng.pick(&[1usize, 4096, 10000]); let data = file_bytes(c.rng.next(), size); let path = dir.path().join("f.bin"); std::fs::write(&path, &data).map_err(|e| bad("__inconclusive", format!("{e}")))?;
     let cfg = PageCacheConfig::balanced().with_capacity(4 * PAGE_SIZE);
-    let cache = if single { Pc::Single(SingleLruPageCache::new(cfg).map_err(|e| bad("ctor_err", format!("{e}")))?) } else { Pc::Lru(LruPageCache::new(cfg).map_err(|e| bad("ctor_err", format!("{e}")))?) };
+    let cache = if single { Pc::Single(SingleLruPageCache::new(cfg).map_err(|e| bad("ctor_err", format!("{e}")))?, Default::default()) } else { Pc::Lru(LruPageCache::new(cfg).map_err(|e| bad("ctor_err", format!("{e}")))?) };
     let id = cache.open(&path).map_err(|e| bad("open_err", format!("{e}")))?;
     let kind = c.rng.below(4);
     let (off, len): (u64, usize) = match kind { 0 => ((1u64 << 44) + c.rng.below(size as u64), 1 + c.rng.usize_below(100)), 1 => (u64::MAX - c.rng.below(50), 100 + c.rng.usize_below(5000)), 2 => ((1u64 << 32) * PAGE_SIZE as u64 * (1 + c.rng.below(1000)) + c.rng.below(4096), 1 + c.rng.usize_below(5000)), _ => ((1u64 << 40) + c.rng.below(1 << 20), c.rng.usize_below(9000)) };
@@ -835,7 +840,7 @@ fn pagecache_huge_sparse(c: &mut Case, single: bool, preset: &str) -> Res {
     for &o in &starts { let len = (1 + c.rng.usize_below(3 * PAGE_SIZE)).min((size - o) as usize); let data = c.rng.bytes(len); f.write_all_at(&data, o).map_err(|e| bad("__inconclusive", format!("write_at {o}: {e}")))?; islands.push((o, len)); }
     let nops = 40 + c.rng.usize_below(50);
     c.input_str("cfg", &format!("{} preset={preset} {cfgs} sparse size={size} islands={} p0={p0} nops={nops}", if single { "single" } else { "lru" }, islands.len())); let sd = c.rng.next(); c.input("rng", &sd.to_le_bytes()); c.set_nontrivial(true);
-    let cache = match nopanic("constructor", || if single { SingleLruPageCache::new(cfg.clone()).map(Pc::Single) } else { LruPageCache::new(cfg.clone()).map(Pc::Lru) })? { Ok(x) => x, Err(e) => { c.note("ctor_err", 1); c.log(format!("ctor: {e}")); return Ok(()); } };
+    let cache = match nopanic("constructor", || if single { SingleLruPageCache::new(cfg.clone()).map(|x| Pc::Single(x, Default::default())) } else { LruPageCache::new(cfg.clone()).map(Pc::Lru) })? { Ok(x) => x, Err(e) => { c.note("ctor_err", 1); c.log(format!("ctor: {e}")); return Ok(()); } };
     let id = cache.open(&path).map_err(|e| bad("open_err", format!("{e}")))?;
     match cache.file_size(id) { Ok(s) => ensure!(s == size, "file_size", "file_size()={s} want {size}"), Err(e) => return fail("file_size", format!("{e}")) }
     let direct = |off: u64, len: usize| -> Result<Vec<u8>, Fail> { let n = (size.saturating_sub(off)).min(len as u64) as usize; let mut b = vec![0u8; n]; let mut got = 0; while got < n { let r = f.read_at(&mut b[got..], off + got as u64).map_err(|e| bad("__inconclusive", format!("pread: {e}")))?; if r == 0 { break; } got += r; } b.truncate(got); Ok(b) };
@@ -881,7 +886,7 @@ fn pagecache_huge_dense(c: &mut Case, single: bool, preset: &str) -> Res {
     let data = file_bytes(c.rng.next(), size); let path = dir.path().join("dense.bin"); std::fs::write(&path, &data).map_err(|e| bad("__inconclusive", format!("write: {e}")))?;
     let nops = 8 + c.rng.usize_below(10);
     c.input_str("cfg", &format!("{} preset={preset} {cfgs} dense size={size} nops={nops}", if single { "single" } else { "lru" })); let sd = c.rng.next(); c.input("rng", &sd.to_le_bytes()); c.set_nontrivial(true);
-    let cache = match nopanic("constructor", || if single { SingleLruPageCache::new(cfg.clone()).map(Pc::Single) } else { LruPageCache::new(cfg.clone()).map(Pc::Lru) })? { Ok(x) => x, Err(e) => { c.note("ctor_err", 1); c.log(format!("ctor: {e}")); return Ok(()); } };
+    let cache = match nopanic("constructor", || if single { SingleLruPageCache::new(cfg.clone()).map(|x| Pc::Single(x, Default::default())) } else { LruPageCache::new(cfg.clone()).map(Pc::Lru) })? { Ok(x) => x, Err(e) => { c.note("ctor_err", 1); c.log(format!("ctor: {e}")); return Ok(()); } };
     let id = cache.open(&path).map_err(|e| bad("open_err", format!("{e}")))?;
     for step in 0..nops {
         let len = match c.rng.below(6) { 0 => 65535, 1 => 65536, 2 => 65537, 3 => (1 << 20) + c.rng.usize_below(3), 4 => size, _ => c.rng.usize_below(size + 1) }.min(size);
